@@ -348,7 +348,7 @@ fn run_case(case: &Val) -> Val {
         confederation_id: 0,
     };
     let mut w = World {
-        table: table::Table::new(0),
+        table: table::Table::new(if cfg.list().len() > 8 { cfg.at(8).u32() } else { 0 }),
         srcs,
         max,
         aptx,
@@ -365,20 +365,30 @@ fn run_case(case: &Val) -> Val {
         mirror: Mirror::new(),
     };
     let mut out: Vec<Val> = Vec::new();
+    // next hops currently unreachable (TableManager keeps this set and flags new paths)
+    let mut bad_toks: Vec<u32> = Vec::new();
     for op in case.at(1).list() {
         match op.at(0).u32() {
             0 => {
                 let (s, n, t) = (op.at(1).usize(), op.at(2).u32(), op.at(3).u32());
+                // an explicitly next-hop-invalid path uses a next hop of its own that never
+                // becomes reachable; otherwise the flag follows the reachability of nh_of(t)
+                let explicit = op.at(5).bool();
+                let nh = if explicit {
+                    Some(bgp::Nexthop::V4(Ipv4Addr::new(10, 2, 9, 9)))
+                } else {
+                    nh_of(t)
+                };
                 let r = w.table.insert(
                     w.srcs[s].clone(),
                     FAM,
                     net_of(n),
                     0,
-                    nh_of(t),
+                    nh,
                     attrs_of(s as u32, t),
                     None,
                     op.at(4).bool(),
-                    op.at(5).bool(),
+                    explicit || bad_toks.contains(&t),
                     None,
                     0,
                 );
@@ -452,6 +462,30 @@ fn run_case(case: &Val) -> Val {
                     w.pending = p;
                 }
                 out.push(Val::L(vec![Val::n(5), Val::b(w.pending.is_empty())]));
+            }
+            10 => {
+                // next-hop tracking: the next hop of token t becomes (un)reachable
+                let (t, reachable) = (op.at(1).u32(), op.at(2).bool());
+                bad_toks.retain(|x| *x != t);
+                if !reachable {
+                    bad_toks.push(t);
+                }
+                let cs = w
+                    .table
+                    .update_nexthop_validity(nh_of(t).unwrap().addr(), reachable);
+                w.emit(cs, &mut out);
+            }
+            11 => {
+                // graceful restart helper: the peer's paths become stale
+                let s = op.at(1).usize();
+                let cs = w.table.restale(w.srcs[s].remote_addr, FAM);
+                w.emit(cs, &mut out);
+            }
+            12 => {
+                // ... and are purged (EOR / restart timer)
+                let s = op.at(1).usize();
+                let (cs, _) = w.table.drop_stale(w.srcs[s].remote_addr, FAM, None);
+                w.emit(cs, &mut out);
             }
             9 => {
                 // the neighbour's export policy assignment is replaced: 0 = the configured
